@@ -108,3 +108,27 @@ extern "C" void h_WriteReal()
     }
     __CPROVER_assert(ok, "C09 a written REAL is the %.15G rendering with only the required decimal point inserted before the exponent");
 }
+
+/* C09/C03: INTEGER and NUMBER tokens: the value the conversion produced is the value stored; a token that converts to
+ * nothing leaves the caller's value untouched and raises an error; what follows the token is judged by CheckRemainingInput,
+ * once, with the caller's delimiter list */
+extern "C" void h_ReadInteger_Number()
+{
+    IN(int, in_ok); IN(long, in_ival); IN(double, in_rval); IN(long, in_old); IN(int, in_which);
+    g_stream_arbitrary = 1;
+    istream in; in._m_state = 0; in._m_have = 0; in._m_consumed = 0;
+    g_conv_ok = in_ok != 0; g_conv_int = in_ival; g_conv_real = in_rval; g_cri_calls = 0;
+    ErrorDescriptor err; const char *delims = ",)";
+    if (in_which) {
+        SDAI_Integer v = in_old;
+        int r = ReadInteger(v, in, &err, delims);
+        if (in_ok) __CPROVER_assert(r == 1 && v == in_ival && err.severity() == SEVERITY_NULL, "C09 an INTEGER token is stored as exactly the value it converts to, without error");
+        else __CPROVER_assert(r == 0 && v == in_old && err.severity() <= SEVERITY_WARNING, "C09/C03 a token that is no integer leaves the value alone and raises an error");
+    } else {
+        SDAI_Real v = 7.0;
+        int r = ReadNumber(v, in, &err, delims);
+        if (in_ok) __CPROVER_assert(r == 1 && (v == in_rval || in_rval != in_rval) && err.severity() == SEVERITY_NULL, "C09 a NUMBER token is stored as exactly the value it converts to, without error");
+        else __CPROVER_assert(r == 0 && v == 7.0 && err.severity() <= SEVERITY_WARNING, "C09/C03 a token that is no number leaves the value alone and raises an error");
+    }
+    __CPROVER_assert(g_cri_calls == 1 && g_cri_delims == delims, "C09 what follows the token is checked once against the caller's delimiter list");
+}
